@@ -150,6 +150,12 @@ pub fn ffi_child_main(a: &[String]) -> ! {
             let _ = o.flush();
         }
         let f = match v["mode"].as_u64().unwrap_or(0) {
+            3 => {
+                // rejected parameters: whatever happens (the process may end here), no finding of its own
+                let mut out = vec![0u8; t.dk];
+                unsafe { (ffi.f)(t.pw.as_ptr(), t.pw.len(), t.salt.as_ptr(), t.salt.len(), t.n, t.r, t.p, out.as_mut_ptr(), t.dk) };
+                vec![]
+            }
             1 => ffi_overlap_eval(&ffi, &t, true),
             2 => ffi_overlap_eval(&ffi, &t, false),
             _ => ffi_eval(&ffi, &t),
@@ -195,6 +201,11 @@ fn ffi_batch(rep: &Report, jobs: &[(Tuple, u8)], tag: &str) {
                 let f: Vec<(String, String)> = serde_json::from_str(js).unwrap_or_default();
                 for (clause, msg) in f {
                     let mut j = t.json(if *m == 0 { "ffi" } else { "ffi-overlap" });
+                    // calls with rejected parameters that came before it in the same process are part of the case
+                    if let Some((rj, _)) = jobs[..i].iter().rev().find(|(_, mm)| *mm == 3) {
+                        j["after_rejected"] = rj.json("ffi");
+                    }
+                    let msg = if j.get("after_rejected").is_some() { format!("{} [after a call with rejected parameters ({}) in the same process]", msg, jobs[..i].iter().rev().find(|(_, mm)| *mm == 3).map(|(rj, _)| rj.descr()).unwrap_or_default()) } else { msg };
                     if *m != 0 {
                         j["over"] = json!(if *m == 1 { "salt" } else { "password" });
                     }
@@ -213,6 +224,12 @@ fn ffi_batch(rep: &Report, jobs: &[(Tuple, u8)], tag: &str) {
             crate::report::machinery(&format!("FFI child ended early without a begun job: {:?}", o.status));
         }
         let (t, m) = &jobs[culprit];
+        if *m == 3 {
+            // a rejected call ended the process: allowed; the jobs after it run in a new process
+            rep.eval(1);
+            start = culprit + 1;
+            continue;
+        }
         use std::os::unix::process::ExitStatusExt;
         let err = String::from_utf8_lossy(&o.stderr);
         rep.eval(1);
@@ -320,6 +337,24 @@ pub fn child_main(a: &[String]) -> ! {
     let (n, rr, p, dk): (u32, u32, u32, usize) = (a[2].parse().unwrap(), a[3].parse().unwrap(), a[4].parse().unwrap(), a[5].parse().unwrap());
     let pw = unhx(&a[6]);
     let salt = unhx(&a[7]);
+    // KV_CPUS=k: the process may run on k processors only (what the operating system answers when asked how much
+    // parallelism is available)
+    if let Some(k) = std::env::var("KV_CPUS").ok().and_then(|v| v.parse::<usize>().ok()) {
+        unsafe {
+            let mut cur: libc::cpu_set_t = std::mem::zeroed();
+            if libc::sched_getaffinity(0, std::mem::size_of::<libc::cpu_set_t>(), &mut cur) == 0 {
+                let mut set: libc::cpu_set_t = std::mem::zeroed();
+                let mut taken = 0;
+                for c in 0..libc::CPU_SETSIZE as usize {
+                    if libc::CPU_ISSET(c, &cur) && taken < k {
+                        libc::CPU_SET(c, &mut set);
+                        taken += 1;
+                    }
+                }
+                libc::sched_setaffinity(0, std::mem::size_of::<libc::cpu_set_t>(), &set);
+            }
+        }
+    }
     let ffi = if via == "ffi" { Some(Ffi::load()) } else { None };
     let mut out = vec![0u8; dk];
     // a panic must end the child at once (printing a backtrace needs memory the limit below does not leave)
@@ -407,10 +442,76 @@ fn memory_pressure(rep: &Report) {
     rep.extra("memory_pressure_runs", json!({"runs":jobs.len(),"returned_a_value":returned.load(std::sync::atomic::Ordering::Relaxed)}));
 }
 
+/// The number of processors the process may use is an answer of the environment like any other: the same derivations in
+/// child processes confined to 1, 2, 3 and 5 processors (and unconfined), for p = 1..=8 and 17 lanes with tables of 2 MiB
+/// and more per lane (sizes at which splitting the lanes over threads would pay), through the library and the C function.
+fn processor_counts(rep: &Report) {
+    let seed = rep.seed;
+    let exe = std::env::current_exe().unwrap_or_else(|_| crate::report::machinery("current_exe"));
+    let pw = derive(seed, "c18-cpu-pw", 10);
+    let salt = derive(seed, "c18-cpu-salt", 12);
+    let mut jobs = vec![];
+    for cpus in [Some(1usize), Some(2), Some(3), Some(5), None] {
+        for (n, rr) in [(16384u32, 1u32), (1024, 16), (32768, 2)] {
+            for p in [1u32, 2, 3, 4, 5, 6, 7, 8, 17] {
+                if (n, rr) == (32768, 2) && !(p == 3 || p == 17) {
+                    continue;
+                }
+                for via in ["lib", "ffi"] {
+                    if via == "ffi" && !(p == 3 || p == 5 || p == 17) {
+                        continue;
+                    }
+                    jobs.push((via, cpus, n, rr, p));
+                }
+            }
+        }
+    }
+    jobs.par_iter().for_each(|&(via, cpus, n, rr, p)| {
+        rep.eval(1);
+        rep.nontrivial(format!("cpus-{}-{:?}-{}-{}-{}", via, cpus, n, rr, p).as_bytes());
+        let want = hx(&r::scrypt(&pw, &salt, n as u64, rr as u64, p as u64, 32));
+        let mut c = std::process::Command::new(&exe);
+        c.args(["scrypt-child", via, "4194304", &n.to_string(), &rr.to_string(), &p.to_string(), "32", &hx(&pw), &hx(&salt)]).stdin(std::process::Stdio::null()).stderr(std::process::Stdio::null());
+        if let Some(k) = cpus {
+            c.env("KV_CPUS", k.to_string());
+        }
+        match c.output() {
+            Err(e) => crate::report::machinery(&format!("cannot start the scrypt child: {}", e)),
+            Ok(o) => {
+                let got = String::from_utf8_lossy(&o.stdout).trim().to_string();
+                if !o.status.success() || got != want {
+                    rep.violation(
+                        &format!("{}/wrong-value-for-a-processor-count", via),
+                        json!({"via":via,"kind":"cpus","cpus":cpus,"n":n,"r":rr,"p":p}),
+                        format!("scrypt(N={}, r={}, p={}) via {} in a process confined to {} processor(s): {}", n, rr, p, via, cpus.map(|k| k.to_string()).unwrap_or("all".into()), if o.status.success() { "the value differs from RFC 7914".to_string() } else { format!("the process ended with {:?}", o.status) }),
+                    );
+                }
+            }
+        }
+    });
+    rep.extra("processor_count_runs", json!(jobs.len()));
+}
+
+/// A call with parameters the library rejects (N not a power of two, N < 2, r or p zero, r*p too large) may end the calling
+/// process -- that is the documented contract of the C function and no verdict is attached to it here; if it returns
+/// instead, the process goes on, and the valid calls that follow in the same process must still write the RFC 7914 value.
+fn after_rejected_calls(rep: &Report) {
+    let seed = rep.seed;
+    let pw = derive(seed, "c18-rej-pw", 8);
+    let salt = derive(seed, "c18-rej-salt", 8);
+    let mk = |n: u32, r: u32, p: u32| Tuple { pw: pw.clone(), salt: salt.clone(), n, r, p, dk: 32 };
+    let rejected = [mk(0, 8, 1), mk(1, 8, 1), mk(3, 8, 1), mk(6, 1, 1), mk(16, 0, 1), mk(16, 1, 0), mk(16, 1 << 15, 1 << 15), mk(0, 0, 0)];
+    let valid = [mk(16, 8, 1), mk(64, 2, 2)];
+    let batches: Vec<Vec<(Tuple, u8)>> = rejected.iter().map(|rj| vec![(valid[0].clone(), 0u8), (rj.clone(), 3u8), (valid[0].clone(), 0u8), (valid[1].clone(), 0u8)]).collect();
+    batches.par_iter().enumerate().for_each(|(k, b)| ffi_batch(rep, b, &format!("after-rejected-{}", k)));
+    rep.extra("after_rejected_call_sequences", json!(batches.len()));
+}
+
 pub fn run(rep: &'static Report) {
     let seed = rep.seed;
     rep.set_rule("E-GRID vs OpenSSL EVP_PBE_scrypt: full product N x r x p x dkLen, each axis swept completely with the others small, corner tuples, password/salt length grid incl. 0/63/64/65 and trailing-NUL variants; every tuple through the library and through the exported C function (dlopen of the cdylib built from the working tree) with guard bytes around all buffers. distinct non-trivial = distinct (via, password, salt, N, r, p, dkLen) tuples");
     rep.rule_add("ordered call pairs on one thread; aliasing; child processes under a grid of address-space limits (library and C ABI).");
+    rep.rule_add("Child processes confined to 1/2/3/5/all processors x p in 1..8,17 x lane tables >= 2 MiB; valid C calls after each of 8 rejected calls in one process.");
     rep.assume("password/salt byte values from seed-derived alphabets; N <= 2^15; OpenSSL is the RFC 7914 reference");
     let (lib, ffi_t) = tuples(seed, rep.tier);
     lib.par_iter().for_each(|t| {
@@ -462,6 +563,8 @@ pub fn run(rep: &'static Report) {
     }
     rep.extra("ffi_overlap_cases", json!(n_over));
     memory_pressure(rep);
+    processor_counts(rep);
+    after_rejected_calls(rep);
     rep.extra("library_tuples", json!(lib.len()));
     rep.extra("ffi_tuples", json!(ffi_t.len()));
     rep.sample(lib[lib.len() / 2].json("lib"));
@@ -471,6 +574,10 @@ pub fn run(rep: &'static Report) {
 }
 
 pub fn replay(rep: &'static Report, case: &Value) {
+    if case["kind"] == "cpus" {
+        processor_counts(rep);
+        return;
+    }
     if case["kind"] == "memory" {
         println!("  re-running the memory-pressure part of C18");
         memory_pressure(rep);
@@ -489,6 +596,11 @@ pub fn replay(rep: &'static Report, case: &Value) {
         return;
     }
     if case["via"] == "ffi" {
+        if let Some(rj) = case.get("after_rejected").filter(|v| !v.is_null()) {
+            let rt = Tuple { pw: unhx(rj["pw"].as_str().unwrap()), salt: unhx(rj["salt"].as_str().unwrap()), n: rj["n"].as_u64().unwrap() as u32, r: rj["r"].as_u64().unwrap() as u32, p: rj["p"].as_u64().unwrap() as u32, dk: rj["dk"].as_u64().unwrap() as usize };
+            ffi_batch(rep, &[(rt, 3), (t, 0)], "replay");
+            return;
+        }
         ffi_batch(rep, &[(t, 0)], "replay");
     } else {
         lib_case(rep, &t);
